@@ -177,6 +177,20 @@ func c10Case(c *mon.Ctx, aText, bText string, prof gen.Profile, kind int) {
 		return
 	}
 	vg, vname, ok := vary(c.R, groups, hs, kind, prof)
+	if kind == 7 {
+		// compound: two variations in sequence (e.g. a hunk shifted onto its predecessor's index with its context test dropped)
+		k1, k2 := gen.Pick(c.R, []int{4, 2, 1, 3}), gen.Pick(c.R, []int{2, 4, 3, 5})
+		var n1, n2 string
+		var ok1, ok2 bool
+		vg, n1, ok1 = vary(c.R, groups, hs, k1, prof)
+		if ok1 && len(vg) == len(hs) {
+			vg, n2, ok2 = vary(c.R, vg, hs, k2, prof)
+		}
+		vname, ok = "compound("+n1+"+"+n2+")", ok1 && ok2
+		if ok {
+			c.Feature("variation:compound")
+		}
+	}
 	if !ok {
 		c.Skip("variation not applicable to this diff")
 		return
@@ -233,6 +247,9 @@ func c10Case(c *mon.Ctx, aText, bText string, prof gen.Profile, kind int) {
 		extra["jd"] = "result " + ref.ToJSON(got)
 		c.Feature("both_sides_evaluated(jd applied)")
 		c.Feature("jd_applied:" + vname)
+		if kind == 7 {
+			c.Feature("jd_applied:compound")
+		}
 		known := ""
 		if vname == "non-canonical-index" {
 			known = "F20"
@@ -268,16 +285,16 @@ func init() {
 	p := &mon.Property{
 		ID: "C10",
 		Rule: "cases are JSON Patch documents p = RenderPatch(a.Diff(b)) and subset-preserving variations (a whole hunk's ops dropped, context tests dropped, value changed consistently in a test/remove pair, all indices of a hunk's ops shifted, " +
-			"end-of-array adds rewritten as forward-order '-' appends, non-canonical index tokens) applied to a, b and perturbations; whenever ReadPatchString and Patch both succeed the harness's RFC 6902 evaluation of the same text on the same document must succeed with an equal result; " +
+			"end-of-array adds rewritten as forward-order '-' appends, non-canonical index tokens, and pairs of these in sequence) applied to a, b and perturbations; whenever ReadPatchString and Patch both succeed the harness's RFC 6902 evaluation of the same text on the same document must succeed with an equal result; " +
 			"jd's own output on a must reproduce b; non-trivial = every case (non-empty expressible diff); distinct = distinct (a, b, patch text)",
 		Floors: map[string]int{"both_sides_evaluated(jd applied)": 20000, "agree": 20000, "own_output_reproduces_b": 5000, "jd_applied:drop-hunk": 500, "jd_applied:drop-context-tests": 500,
-			"jd_applied:change-test/remove-value": 200, "jd_applied:shift-indices": 200, "jd_applied:append-token": 200, "jd_applied:append-token-multi": 50},
+			"jd_applied:change-test/remove-value": 200, "jd_applied:shift-indices": 200, "jd_applied:append-token": 200, "jd_applied:append-token-multi": 50, "jd_applied:compound": 200},
 		Assumptions: []string{
 			"jd erroring where the RFC evaluation succeeds is allowed (counted as jd_stricter_than_rfc); only 'more permissive or different' is a violation",
 			"same RFC 6902 reading of root replacement as C09 (DESIGN 5.9)",
 		},
 	}
-	for kind, name := range []string{"as-is", "drop-hunk", "drop-context-tests", "change-value", "shift-indices", "append-token", "non-canonical-index"} {
+	for kind, name := range []string{"as-is", "drop-hunk", "drop-context-tests", "change-value", "shift-indices", "append-token", "non-canonical-index", "compound"} {
 		kind := kind
 		p.Strata = append(p.Strata, mon.Stratum{
 			Name: "variation/" + name,
